@@ -640,6 +640,7 @@ package group
 //@   invariant loop 1 own: fresh(users) && !held(groups.mu)
 //@
 //@ -- ------------------------------------------------------------------ password login (C08)
+//@ global bcrypt-error-set: bcrypt.ErrMismatchedHashAndPassword != nil
 //@ global login-errors-set: ErrBadPassword != nil && ErrNoSuchUsername != nil && ErrUsernameRequired != nil && ErrDuplicateUsername != nil
 //@
 //@ -- two Go strings are equal iff they have the same length and the same bytes
@@ -667,6 +668,22 @@ package group
 //@   ensures unknown-type: p.Type != "" && p.Type != "plain" && p.Type != "wildcard" && p.Type != "pbkdf2" && p.Type != "bcrypt" ==> !result0 && result1 != nil
 //@   -- C08: an error is never a match
 //@   ensures error-no-match: result1 != nil ==> !result0
+//@   -- C08: a pbkdf2 record whose key or salt is not hexadecimal matches nothing (hex.DecodeString returns the bytes decoded so far with
+//@   -- its error: an undecodable key compared as the empty key would match every password)
+//@   proves pbkdf2-malformed: p.Type == "pbkdf2" && p.Key != nil && (second(callresult("DecodeString", 1)) != nil || second(callresult("DecodeString", 2)) != nil)
+//@        ==> !result0 && result1 != nil
+//@   -- C08: ... and otherwise matches exactly when the key derived from this password with the record's salt, iteration count, key length
+//@   -- (and sha-256) equals the record's key
+//@   assert at call DecodeString#1 the-key: p.Key != nil && arg_s == *p.Key
+//@   assert at call DecodeString#2 the-salt: arg_s == p.Salt
+//@   assert at call Key derive: arg_iter == p.Iterations && arg_keyLen == len(first(callresult("DecodeString", 1))) && same(arg_salt, first(callresult("DecodeString", 2)))
+//@        && len(arg_password) == len(pw) && (forall i int :: 0 <= i && i < len(pw) ==> arg_password[i] == pw[i]) && p.Hash == "sha-256"
+//@   assert at call Equal compare: same(arg_a, first(callresult("DecodeString", 1))) && same(arg_b, callresult("Key", 1))
+//@   proves pbkdf2-result: p.Type == "pbkdf2" && result1 == nil ==> result0 == callresult("Equal", 1)
+//@   -- C08: a bcrypt record is compared with this password
+//@   assert at call CompareHashAndPassword compare: p.Key != nil && len(arg_password) == len(pw) && (forall i int :: 0 <= i && i < len(pw) ==> arg_password[i] == pw[i])
+//@        && len(arg_hashedPassword) == len(*p.Key) && (forall i int :: 0 <= i && i < len(*p.Key) ==> arg_hashedPassword[i] == (*p.Key)[i])
+//@   proves bcrypt-result: p.Type == "bcrypt" && p.Key != nil ==> result0 == (callresult("CompareHashAndPassword", 1) == nil)
 //@
 //@ spec pwmatch(p Password, pw string) bool = first(call("(group.Password).Match", p, pw))
 //@
